@@ -178,6 +178,10 @@ class Ctx(object):
     def _absorb(self, res):
         if res is None:
             return
+        if isinstance(res, dict) and res.get('__cut__'):
+            self.count('work_items_cut_by_watchdog')
+            self.cap('work item %s cut by its watchdog; nothing it explored is counted' % res['__cut__'])
+            return
         if isinstance(res, dict) and res.get('__internal_error__'):
             sys.stderr.write('INTERNAL ERROR in worker:\n%s\n' % res['__internal_error__'])
             sys.exit(EXIT_INTERNAL)
@@ -287,6 +291,8 @@ class _Guarded(object):
 def _guard(func, item):
     try:
         return func(item)
+    except Timeout:     # a worker that does not handle its own watchdog: the item is cut, the run reported as capped
+        return {'__cut__': repr(item)[:200]}
     except BaseException:  # noqa - harness bug: must be loud, never a silent pass
         return {'__internal_error__': 'item=%r\n%s' % (repr(item)[:300], traceback.format_exc())}
 
